@@ -136,6 +136,10 @@ LITERAL_FORMS = [
     ("bool", "[0, 0, 1].exists(x, {0} / x > 0)", ["int"]), ("bool", "[0, 0, 2].all(x, {0} / x == 1)", ["int"]),
     ("int", "[10, 20, 30][{0}]", ["int"]), ("string", "{{1: 'a', 2: 'b'}}[{0}]", ["int"]),
     ("bool", "has({{'a': {0}}}.a)", ["int"]),
+    # container literals with an erroring key / value / element: construction is strict, the error is the result (and is absorbed like any other)
+    ("map", "{{'a': 1 / {0}}}", ["int"]), ("int", "size({{'a': 1 / {0}}})", ["int"]), ("map", "{{'a': [1 / {0}]}}", ["int"]), ("map", "{{1 / {0}: 2}}", ["int"]),
+    ("int", "size([1 / {0}, 2])", ["int"]), ("bool", "(size({{'a': 1 / {0}, 'b': 2}}) == 2 || true)", ["int"]), ("bool", "({{'a': 1 / {0}}} == {{'a': 1}})", ["int"]),
+    ("int", "{{'a': 1 / {0}, 'b': 7}}.b", ["int"]), ("bool", "('a' in {{'a': 1 / {0}}})", ["int"]), ("list<int>", "[{{'k': 1 / {0}}}].map(m, 1)", ["int"]),
     # an erroring body element at every position relative to the deciding / counted elements, for every macro
     ("bool", "[{0}, {1}, {2}].exists_one(x, 10 / x > 0)", ["int", "int", "int"]), ("bool", "[1, 1, {0}].exists_one(x, 1 / x > 0)", ["int"]),
     ("bool", "[{0}, 1, 1].exists_one(x, 1 / x > 0)", ["int"]), ("bool", "[{0}, {1}, {2}].all(x, 10 / x > 0)", ["int", "int", "int"]),
